@@ -351,11 +351,18 @@ func main() {
 
 	t0 := time.Now()
 	// standard toolchain first, one batch: it tells which tuples are inside the property's side condition
-	// (quick tier: one `go run`; larger runs are cut into chunks of 750 programs to bound the Go compiler's memory)
+	// (programs are linked in chunks of 300 per `go run` to bound the Go compiler's memory)
 	gores, dropped := map[string]goRes{}, map[int]string{}
-	for lo := 0; lo < len(progs); lo += 750 {
-		hi := min(lo+750, len(progs))
-		gr, dr, err := runBatch(filepath.Join(f.Out, fmt.Sprintf("gobatch%d", lo/750)), progs[lo:hi])
+	const chunk = 300
+	for lo := 0; lo < len(progs); lo += chunk {
+		hi := min(lo+chunk, len(progs))
+		dir := filepath.Join(f.Out, fmt.Sprintf("gobatch%d", lo/chunk))
+		gr, dr, err := runBatch(dir, progs[lo:hi])
+		for try := 0; err != nil && strings.Contains(err.Error(), "killed") && try < 3; try++ {
+			// the Go compiler was killed (memory pressure on a shared machine): wait and retry
+			time.Sleep(20 * time.Second)
+			gr, dr, err = runBatch(dir, progs[lo:hi])
+		}
 		if err != nil {
 			fmt.Fprintln(os.Stderr, "go batch failed:", err)
 			os.Exit(3)
@@ -365,6 +372,9 @@ func main() {
 		}
 		for k, v := range dr {
 			dropped[k] = v
+		}
+		if lo > 0 {
+			os.RemoveAll(dir) // keep only the first batch for inspection
 		}
 	}
 	fmt.Fprintf(os.Stderr, "go batch: %v\n", time.Since(t0))
